@@ -21,7 +21,7 @@ from .c16 import datetime_julian, yearlen_sites
 
 MANIFEST = {
     "level": "other",
-    "technique": "static analysis: polynomial extraction from symbolically evaluated function bodies (partial evaluation per literal target), equality of polynomial copies, audit of finder constants (constant, rate and secular k^2 term of every argument) against the fundamental-argument polynomials with three-valued tolerances, structural identities for parallax and illuminated fraction, exhaustive-dispatch rule, exact decision table of the fractional-year denominator against the day number of 31 December on every class of year, unit inference",
+    "technique": "static analysis: polynomial extraction from symbolically evaluated function bodies (partial evaluation per literal target), equality of polynomial copies, audit of finder constants (constant, rate and secular k^2 term of every argument) against the fundamental-argument polynomials with three-valued tolerances, structural identities for parallax and illuminated fraction, exhaustive-dispatch rule, exact decision table of the fractional-year denominator against the day number of 31 December on every class of year, unit inference; the Angle / Epoch operator semantics the evaluator assumes are verified (operator conformance, operands never written); rule on string parameters (no raw comparison next to a case-normalised one)",
     "text": "The finders' spacing and phase bookkeeping (period, reference epoch, argument rates and constants, year-to-lunation conversion) are decided against the library's own lunar theory for all queries at once; copies of the fundamental arguments are shown identical; the fractional year feeding each lunation count divides by at least the length of its year on every class of year (so it cannot run backwards at New Year); the parallax and illuminated-fraction formulas are shown to be the stated closed forms. Physical bounds on distance/latitude/rates and the agreement of the finders' periodic correction series with the position theory depend on hundreds of runtime series terms and are not decided.",
     "note": "Trusted: coarse physical windows (+-0.1 %) that label the fundamental arguments D, M, M', F, L', Omega by their rates; the property's tolerances (0.06 deg, 0.25 d, 0.02 deg). Undecided: distance/latitude/rate bounds, finder-vs-theory agreement of the corr series, spacing within natural variation, the southern-declination constant 1.13951 (impact 1e-4 d, proved harmless).",
 }
